@@ -11,13 +11,23 @@
    close()/flush()) is expressed by guards: observations of p are only made when ~dirty, and other objects only
    write p while h is closed.
 
+   The object h also remembers what it was told about its file: size(), isFile(), content() and text() look the file
+   information up once and keep it until close() (exists() looks it up afresh).  The ghost `hknown` is the size h
+   remembers (-1: nothing).  A query through h that relies on the remembered information is within the discipline
+   only while that information still describes the file (InfoOK): after close() - of an open or of a closed
+   object - h knows nothing and every query through it must again reflect the bytes of the path.  `hlast` is the
+   size h learned last, ever (a history variable: it keeps behaviours apart that differ in what an object that
+   never forgets would still hold, so that every query - mutate - close - query order is generated and replayed).
+
    The property:  after any history of put / write / append / stream calls the content of the path is the bytes
    the model holds; content(), firstBytes(), read(), size() return them; lines()/readLine() return
    Lines(content) = split at LF with one CR removed before each LF; text() returns TextOf(content) (BOM sniffing:
    UTF-8 / UTF-16LE / UTF-16BE files come back as UTF-8); copy and move preserve the bytes.
 
    R: MC_FileModel_*.cfg emit one case per transition (history, results of the calls, expected observation of all
-      paths)  -> harness/c17_replay
+      paths, and whether h itself may be asked in the state reached)  -> harness/c17_replay;
+      MC_FileModel_handle_*.cfg: histories on p alone with every kind of query through h between its own writes,
+      closes, reopens and the writes of temporaries
    V: Trace_FileModel validates recorded executions of the real classes (large sizes, long lines, BOM texts)
       -> harness/c17_record.
    The implementation-shaped line reader (255-byte fgets chunks) is FileModelLineReader.tla, checked against Lines. *)
@@ -32,6 +42,8 @@ CONSTANTS BinChunks,     \* byte sequences written with the binary calls (token 
           EncMaxLen,     \* maximal number of scalars of a generated BOM text
           MaxLen,        \* appends are generated only up to this file length
           MaxOps,        \* bound on the history length
+          TmpPaths,      \* paths the generated calls through temporary objects work on ({"p", "q"}; {"p"}: handle histories)
+          QueryKinds,    \* kinds of queries through the long-lived object that are generated (empty: none)
           KeepHist       \* TRUE: whole history (model checking / replay); FALSE: last call only (trace validation)
 
 VARIABLES fs,       \* path -> NoFile or the bytes
@@ -39,8 +51,10 @@ VARIABLES fs,       \* path -> NoFile or the bytes
           hpos,     \* read position of h (bytes consumed), meaningful in mode "r"
           heof,     \* the stream of h has hit the end (a read asked for more than there was)
           dirty,    \* h has written data that was neither flushed nor closed
+          hknown,   \* the file size h remembers from an earlier query (-1: nothing remembered)
+          hlast,    \* the file size h learned last, ever (-1: never; history variable, see above)
           hist, hz
-vars == <<fs, hmode, hpos, heof, dirty, hist, hz>>
+vars == <<fs, hmode, hpos, heof, dirty, hknown, hlast, hist, hz>>
 
 Paths   == {"p", "q", "r"}
 NoFile  == <<-1>>
@@ -133,11 +147,16 @@ ASSUME \A enc \in Encodings : \A s \in EncTexts : TextOf(EncodeFile(enc, s)) = U
 -------------------------------------------------------------------------------
 Init == /\ fs = [x \in Paths |-> NoFile]
         /\ hmode = "closed" /\ hpos = 0 /\ heof = FALSE /\ dirty = FALSE
+        /\ hknown = -1 /\ hlast = -1
         /\ hist = <<>> /\ hz = {}
 
 Log(rec) == /\ hist' = IF KeepHist THEN Append(hist, rec) ELSE <<rec>>
             /\ hz' = hz
-HSame == UNCHANGED <<hmode, hpos, heof, dirty>>
+KeepInfo == UNCHANGED <<hknown, hlast>>
+HSame == UNCHANGED <<hmode, hpos, heof, dirty, hknown, hlast>>
+\* h looks the file information up (n = the size found, -1: no such file) / h forgets it
+Learn(n) == hknown' = n /\ hlast' = (IF n # -1 THEN n ELSE hlast)
+Forget == hknown' = -1 /\ UNCHANGED hlast
 \* another object may write path x (h is bound to p)
 Free(x) == IF x = "p" THEN hmode = "closed" ELSE TRUE
 \* the bytes of x are all on disk
@@ -179,22 +198,31 @@ HOpen(m) == /\ hmode = "closed" /\ m \in {"r", "w", "a"}
                ELSE /\ fs' = [fs EXCEPT !["p"] = IF m = "w" THEN <<>> ELSE Cur("p")]
                     /\ hmode' = m /\ hpos' = 0 /\ heof' = FALSE /\ dirty' = FALSE
                     /\ Log([op |-> "open", m |-> m, r |-> TRUE])
+            /\ KeepInfo
 \* h.write(ptr, n) / h << ByteArray / TextFile: h << s, h.printf: at the end of the file (no seeking is modelled)
 HWrite(data, api) == /\ hmode \in {"w", "a"}
                      /\ fs' = [fs EXCEPT !["p"] = fs["p"] \o data]
-                     /\ dirty' = TRUE /\ UNCHANGED <<hmode, hpos, heof>>
+                     /\ dirty' = TRUE /\ UNCHANGED <<hmode, hpos, heof>> /\ KeepInfo
                      /\ Log([op |-> "hwrite", d |-> data, api |-> api])
 \* h.put(data) / h.write(s) on a closed object opens it for writing and leaves it open; h.append(s) opens for appending
 HPutClosed(data, api) == /\ hmode = "closed" /\ api \in {"put", "write", "append"}
                          /\ fs' = [fs EXCEPT !["p"] = IF api = "append" THEN Cur("p") \o data ELSE data]
                          /\ hmode' = (IF api = "append" THEN "a" ELSE "w") /\ hpos' = 0 /\ heof' = FALSE /\ dirty' = TRUE
+                         /\ KeepInfo
                          /\ Log([op |-> "hput", d |-> data, api |-> api])
 HFlush == /\ hmode \in {"w", "a"}
-          /\ dirty' = FALSE /\ UNCHANGED <<fs, hmode, hpos, heof>>
+          /\ dirty' = FALSE /\ UNCHANGED <<fs, hmode, hpos, heof>> /\ KeepInfo
           /\ Log([op |-> "flush"])
+\* h.close(): whatever h was doing is over, its data is on disk, and it forgets what it knew about the file
 HClose == /\ hmode # "closed"
           /\ hmode' = "closed" /\ dirty' = FALSE /\ hpos' = 0 /\ heof' = FALSE /\ UNCHANGED fs
+          /\ Forget
           /\ Log([op |-> "close"])
+\* h.close() on an object that is not open: nothing happens to the file; h forgets what it knew about it
+HCloseClosed == /\ hmode = "closed"
+                /\ UNCHANGED <<fs, hmode, hpos, heof, dirty>>
+                /\ Forget
+                /\ Log([op |-> "close"])
 \* h.read(buf, n): the next n bytes, fewer at the end of the file
 HRead(n) == /\ hmode = "r"
             /\ LET rest == Len(fs["p"]) - hpos
@@ -202,18 +230,18 @@ HRead(n) == /\ hmode = "r"
                IN /\ hpos' = hpos + k
                   /\ heof' = (heof \/ n > rest)
                   /\ Log([op |-> "hread", n |-> n, r |-> SubSeq(fs["p"], hpos + 1, hpos + k)])
-            /\ UNCHANGED <<fs, hmode, dirty>>
+            /\ UNCHANGED <<fs, hmode, dirty>> /\ KeepInfo
 \* while(!h.end()) lines << h.readLine();   /  h.lines()   - the rest of the file as lines
 HReadLines(api) == /\ hmode = "r" /\ ~heof /\ NulFree(fs["p"])
                    /\ hpos' = Len(fs["p"]) /\ heof' = TRUE
                    /\ Log([op |-> "hlines", api |-> api, r |-> Lines(SubSeq(fs["p"], hpos + 1, Len(fs["p"])))])
-                   /\ UNCHANGED <<fs, hmode, dirty>>
+                   /\ UNCHANGED <<fs, hmode, dirty>> /\ KeepInfo
 
 (* observations through fresh objects (trace validation; in model-checking mode they are part of Obs) *)
 Content(x)       == IF Exists(x) THEN fs[x] ELSE <<>>
 FirstBytes(x, n) == SubSeq(Content(x), 1, IF n <= Len(Content(x)) THEN n ELSE Len(Content(x)))
 SizeOf(x)        == IF Exists(x) THEN Len(fs[x]) ELSE -1
-Observe(x, what, n) == /\ Settled(x) /\ UNCHANGED <<fs, hmode, hpos, heof, dirty>>
+Observe(x, what, n) == /\ Settled(x) /\ UNCHANGED <<fs, hmode, hpos, heof, dirty, hknown, hlast>>
                        /\ (IF what = "text" THEN TextDefined(Content(x)) ELSE IF what \in {"lines", "readlines"} THEN NulFree(Content(x)) ELSE TRUE)
                        /\ Log([op |-> what, x |-> x, n |-> n,
                                r |-> IF what = "content" THEN Content(x)
@@ -222,6 +250,43 @@ Observe(x, what, n) == /\ Settled(x) /\ UNCHANGED <<fs, hmode, hpos, heof, dirty
                                      ELSE IF what = "text" THEN TextOf(Content(x))
                                      ELSE Lines(Content(x))])       \* "lines" / "readlines"
 
+(* queries through the long-lived object h itself.  size(), isFile(), content() and text() rely on the file information
+   h remembers (looked up when h knows nothing); exists() always looks it up afresh.  content(), firstBytes(), text(),
+   lines() and the readLine loop on a closed object open it for reading and leave it open (at the position where the
+   call stopped reading; text() of a file with a byte-order mark reads until the stream reports its end).  On a missing
+   file they return nothing and h stays closed.  Whatever the history of h - earlier queries, writes through h, close
+   and reopen - the result is what the path holds now. *)
+SizeIn(fsx, x) == IF fsx[x] = NoFile THEN -1 ELSE Len(fsx[x])
+InfoOKOf(k, fsx) == k = -1 \/ k = SizeIn(fsx, "p")
+InfoOK == InfoOKOf(hknown, fs)
+AtStart == hmode = "closed" \/ (hmode = "r" /\ hpos = 0 /\ ~heof)
+HasBom(b) == IsUtf16(b) \/ (Len(b) >= 3 /\ b[1] = 239 /\ b[2] = 187 /\ b[3] = 191)
+AllQueryKinds == {"size", "exists", "isfile", "content", "first", "text", "lines", "loop"}
+QueryResult(what, n) == IF what = "size" THEN <<SizeOf("p")>>
+                        ELSE IF what \in {"exists", "isfile"} THEN <<IF Exists("p") THEN 1 ELSE 0>>
+                        ELSE IF what = "content" THEN Content("p")
+                        ELSE IF what = "first" THEN FirstBytes("p", n)
+                        ELSE IF what = "text" THEN TextOf(Content("p"))
+                        ELSE IF Exists("p") THEN Lines(Content("p")) ELSE <<>>       \* "lines" / "loop"
+HQuery(what, n) ==
+    /\ what \in AllQueryKinds /\ Settled("p")
+    /\ (what \in {"size", "isfile", "content", "text"} => InfoOK)
+    /\ (what \in {"content", "first", "text"} => AtStart)
+    /\ (what \in {"lines", "loop"} => hmode = "closed" /\ NulFree(Content("p")))
+    /\ (what = "text" => TextDefined(Content("p")))
+    /\ UNCHANGED <<fs, dirty>>
+    /\ LET b == Content("p")
+           opens == what \in {"content", "first", "text", "lines", "loop"} /\ Exists("p")
+       IN /\ hmode' = (IF opens THEN "r" ELSE hmode)
+          /\ hpos' = (IF ~opens THEN hpos ELSE IF what = "first" THEN (IF n <= Len(b) THEN n ELSE Len(b)) ELSE Len(b))
+          /\ heof' = (IF ~opens THEN heof ELSE IF what = "first" THEN n > Len(b)
+                      ELSE IF what = "text" THEN HasBom(b) ELSE what \in {"lines", "loop"})
+    /\ IF what \in {"size", "exists", "isfile", "content", "text"} THEN Learn(SizeOf("p")) ELSE KeepInfo
+    \* (the lines come under a field name of their own: TLC compares two records with the same fields field by field and
+    \*  cannot compare a sequence of lines with a sequence of bytes)
+    /\ Log(IF what \in {"lines", "loop"} THEN [op |-> "hq", k |-> what, n |-> n, ls |-> QueryResult(what, n)]
+           ELSE [op |-> "hq", k |-> what, n |-> n, r |-> QueryResult(what, n)])
+
 -------------------------------------------------------------------------------
 (* model-checking mode: named actions (coverage is reported per action) *)
 CanStep == Len(hist) < MaxOps
@@ -229,15 +294,15 @@ Bin  == {Expand(t) : t \in BinChunks}
 Txt  == {Expand(t) : t \in TextChunks}
 Fits(x, d) == Len(Cur(x)) + Len(d) <= MaxLen
 \* which of the equivalent API spellings the replayer uses is part of the call record
-MCPutBin    == CanStep /\ \E x \in {"p", "q"}, d \in Bin : Put(x, d, "bin")
+MCPutBin    == CanStep /\ \E x \in TmpPaths, d \in Bin : Put(x, d, "bin")
 \* (text calls have several equivalent spellings; which one is used rotates with the history length and the data)
 TextApi(d) == <<"put", "write", "printf", "shl">>[((Len(hist) + Len(d)) % 4) + 1]
-MCPutText   == CanStep /\ \E x \in {"p", "q"}, d \in Txt : Put(x, d, TextApi(d))
-MCAppend    == CanStep /\ \E x \in {"p", "q"}, d \in Txt : Fits(x, d) /\ AppendTo(x, d)
-MCStream    == CanStep /\ \E d \in Txt, d2 \in Txt : Len(d) + Len(d2) <= MaxLen /\ Len(d) = (Len(hist) % 3) /\ StreamTo("q", d, d2)
-MCRemove    == CanStep /\ \E x \in {"p", "q"} : RemoveFile(x)
-MCCopy      == CanStep /\ \E x \in {"p", "q"}, y \in {"p", "q", "d"} : Copy(x, y)
-MCMove      == CanStep /\ \E x \in {"p", "q"}, y \in {"p", "q", "d"} : Move(x, y)
+MCPutText   == CanStep /\ \E x \in TmpPaths, d \in Txt : Put(x, d, TextApi(d))
+MCAppend    == CanStep /\ \E x \in TmpPaths, d \in Txt : Fits(x, d) /\ AppendTo(x, d)
+MCStream    == CanStep /\ "q" \in TmpPaths /\ \E d \in Txt, d2 \in Txt : Len(d) + Len(d2) <= MaxLen /\ Len(d) = (Len(hist) % 3) /\ StreamTo("q", d, d2)
+MCRemove    == CanStep /\ \E x \in TmpPaths : RemoveFile(x)
+MCCopy      == CanStep /\ \E x \in TmpPaths, y \in TmpPaths \cup {"d"} : Copy(x, y)
+MCMove      == CanStep /\ \E x \in TmpPaths, y \in TmpPaths \cup {"d"} : Move(x, y)
 MCOpen      == CanStep /\ \E m \in {"r", "w", "a"} : HOpen(m)
 HApi(d) == <<"write", "shl", "append">>[((Len(hist) + Len(d)) % 3) + 1]
 MCHWrite    == CanStep /\ \/ \E d \in Bin : Fits("p", d) /\ HWrite(d, "bin")
@@ -249,6 +314,9 @@ MCHFlush    == CanStep /\ HFlush
 MCHClose    == CanStep /\ HClose
 MCHRead     == CanStep /\ \E n \in ReadSizes : HRead(n)
 MCHLines    == CanStep /\ \E api \in {"loop", "lines"} : HReadLines(api)
+\* queries through h in every state the discipline allows; close() of the closed object only where it has something to forget
+MCHQuery    == CanStep /\ \E what \in QueryKinds : \E n \in (IF what = "first" THEN ReadSizes ELSE {0}) : HQuery(what, n)
+MCHCloseClosed == CanStep /\ QueryKinds # {} /\ hknown # -1 /\ HCloseClosed
 
 \* line shapes at the real chunk size: segments "run of n bytes, then LF / CR LF / CR / nothing"
 Terminators == {<<LF>>, <<CR, LF>>, <<CR>>, <<>>}
@@ -260,6 +328,7 @@ MCPutEnc    == CanStep /\ EncScalars # {} /\ \E enc \in Encodings, s \in EncText
 
 Next == \/ MCPutBin \/ MCPutText \/ MCAppend \/ MCStream \/ MCRemove \/ MCCopy \/ MCMove
         \/ MCOpen \/ MCHWrite \/ MCHPut \/ MCHFlush \/ MCHClose \/ MCHRead \/ MCHLines
+        \/ MCHQuery \/ MCHCloseClosed
         \/ MCPutShape \/ MCPutEnc
 Spec == Init /\ [][Next]_vars
 
@@ -267,9 +336,11 @@ Spec == Init /\ [][Next]_vars
 (* properties of the specification itself *)
 TypeOK == /\ \A x \in Paths : fs[x] = NoFile \/ \A i \in 1..Len(fs[x]) : fs[x][i] \in Byte
           /\ hmode \in {"closed", "r", "w", "a"} /\ hpos \in Nat /\ heof \in BOOLEAN /\ dirty \in BOOLEAN
+          /\ hknown \in Nat \cup {-1} /\ hlast \in Nat \cup {-1}
 HandleOK == /\ (hmode # "closed") => Exists("p")
             /\ dirty => hmode \in {"w", "a"}
             /\ hmode = "r" => hpos <= Len(fs["p"])
+            /\ hknown # -1 => hlast = hknown
 \* lines: joining the lines with LF gives the text back up to the removed CRs; their number is the number of LFs + 1
 LinesOK == \A x \in Paths : (Exists(x) /\ NulFree(fs[x])) =>
               LET ls == Lines(fs[x]) IN
@@ -285,6 +356,16 @@ Independence ==
 \* copy and move preserve content byte for byte
 CopyExact == [][(hist' # hist /\ hist' # <<>> /\ hist'[Len(hist')].op \in {"copy", "move"}) =>
                   LET rec == hist'[Len(hist')] IN fs'[Land(rec.x, rec.y)] = fs[rec.x]]_vars
+
+\* a query through h changes no file, answers with what the path holds, is asked within the discipline, and what h
+\* remembers afterwards is true
+QueryFresh == [][(hist' # hist /\ hist' # <<>> /\ hist'[Len(hist')].op = "hq") =>
+                   LET rec == hist'[Len(hist')] IN
+                   /\ fs' = fs
+                   /\ (rec.k = "size" => rec.r = <<SizeOf("p")>>)
+                   /\ (rec.k = "content" => rec.r = Content("p"))
+                   /\ (rec.k \in {"size", "isfile", "content", "text"} => InfoOK)
+                   /\ (rec.k \in {"size", "exists", "isfile", "content", "text"} => hknown' = SizeIn(fs', "p"))]_vars
 
 -------------------------------------------------------------------------------
 (* observation emitted with every transition: what fresh File/TextFile objects must report for every path *)
@@ -305,7 +386,13 @@ ObsOf(fsx, d) == <<ObsPath(fsx, "p", ~d), ObsPath(fsx, "q", TRUE), ObsPath(fsx, 
 PackRec(r) == [f \in DOMAIN r |-> IF f \in {"d", "d2"} THEN Rle(r[f])
                                   ELSE IF f = "r" /\ r.op = "hread" THEN Rle(r[f])
                                   ELSE IF f = "r" /\ r.op = "hlines" THEN RleAll(r[f])
+                                  ELSE IF f = "r" /\ r.op = "hq" /\ r.k \in {"content", "first", "text"} THEN Rle(r[f])
+                                  ELSE IF f = "ls" THEN RleAll(r[f])
                                   ELSE r[f]]
-View == <<fs, hmode, hpos, heof, dirty, Len(hist)>>
-Emit == PrintT(ToJson([hist |-> [i \in 1..Len(hist') |-> PackRec(hist'[i])], exp |-> ObsOf(fs', dirty'), hm |-> hmode', hz |-> hz']))
+View == <<fs, hmode, hpos, heof, dirty, hknown, hlast, Len(hist)>>
+\* hq: in the state reached h is closed and what it remembers (if anything) still describes the file, i.e. HQuery is
+\* enabled for size / isfile / exists / content / text / lines and (queries do not change the file) stays enabled after
+\* each of them and a close(); their results are the fields of the observation of p: the replayer asks h itself
+Emit == PrintT(ToJson([hist |-> [i \in 1..Len(hist') |-> PackRec(hist'[i])], exp |-> ObsOf(fs', dirty'), hm |-> hmode',
+                       hq |-> (hmode' = "closed" /\ InfoOKOf(hknown', fs')), hz |-> hz']))
 ===============================================================================
